@@ -243,7 +243,8 @@ where
 
         if let Some(word) = is_same(pixel) {
             self.send_word(word)?;
-            for _ in 1..(count * N as u32) {
+            // count * N can exceed u32::MAX (e.g. 2^31 two-word pixels): form the product in u64
+            for _ in 1..(u64::from(count) * N as u64) {
                 self.wr.set_low().map_err(ParallelError::Wr)?;
                 self.wr.set_high().map_err(ParallelError::Wr)?;
             }
